@@ -38,7 +38,7 @@ const (
 
 // Op is one operation of a history (JSON = the replay format).
 type Op struct {
-	K   string   `json:"k"`             // fund bond add redel edit withdraw unbond gov params confirm addbatch execbatch addcall delcall slashval exportimport block
+	K   string   `json:"k"`             // fund bond add redel edit withdraw unbond gov params confirm addbatch execbatch observeset addcall delcall slashval exportimport block
 	M   int      `json:"m"`             // module index (ignored by block)
 	A   int      `json:"a,omitempty"`   // oracle account id
 	B   int      `json:"b,omitempty"`   // bridger account id
@@ -85,6 +85,7 @@ type View struct {
 	Deleg       [][3]*big.Int // oracle, validator, SHARES (LegacyDec scaled 10^18)
 	DelegTok    [][3]*big.Int // oracle, validator, token value of those shares at the validator's rate
 	Vals        [][3]*big.Int // validator id, Tokens, DelegatorShares (scaled)
+	LastObs     int64         // nonce of the last observed oracle set, -1 = none
 	Ubds        [][4]*big.Int // oracle, validator, completion (s since genesis), balance
 	BalO        []*big.Int
 	BalD        []*big.Int
@@ -455,6 +456,22 @@ func (w *world) apply(op Op) []applied {
 			return nil
 		}
 		coqOp = fmt.Sprintf("ExecBatch %d", op.N)
+	case "observeset":
+		// the external chain switched to oracle set N: every online oracle reports the OracleSetUpdated event (real claims)
+		set := x.Keeper.GetOracleSet(c.Ctx, uint64(op.N))
+		if set == nil || m.stuck || !m.quorumOnline() {
+			return nil
+		}
+		for _, mem := range set.Members { // claimLogicCheck: every member must still be a registered external address
+			if !x.Keeper.HasOracleAddrByExternalAddr(c.Ctx, mem.ExternalAddress) {
+				return nil
+			}
+		}
+		if !m.observe(&crosschaintypes.MsgOracleSetUpdatedClaim{BlockHeight: 1000, OracleSetNonce: set.Nonce, Members: set.Members, ChainName: m.name}) {
+			m.stuck = true
+			return nil
+		}
+		coqOp = fmt.Sprintf("ObserveSet %d", op.N)
 	case "exportimport":
 		// chain restart from exported state, for this module: real ExportGenesis, empty store, real InitGenesis
 		try(nil, func(ctx sdk.Context) error {
@@ -654,6 +671,10 @@ func (m *modw) view() *View {
 	})
 	sort.Slice(v.Calls, func(i, j int) bool { return v.Calls[i].N < v.Calls[j].N })
 	v.SlashedCall = int64(x.Keeper.GetLastSlashedBridgeCallNonce(ctx))
+	v.LastObs = -1
+	if lo := x.Keeper.GetLastObservedOracleSet(ctx); lo != nil {
+		v.LastObs = int64(lo.Nonce)
+	}
 	return v
 }
 
@@ -718,9 +739,9 @@ func (v *View) coq() string {
 	for _, b := range v.BalD {
 		bd = append(bd, b.String())
 	}
-	return fmt.Sprintf("(mkView %s %s %s %s %s %s %s %s %s %s %d %s %d %s %d %s)", lib.List(recs), coqPairs(v.ByB), coqPairs(v.ByE), coqInts(v.Prop),
+	return fmt.Sprintf("(mkView %s %s %s %s %s %s %s %s %s %s %d %s %d %s %d %s %s)", lib.List(recs), coqPairs(v.ByB), coqPairs(v.ByE), coqInts(v.Prop),
 		v.Power, coqDeleg(v.Deleg), coqUbds(v.Ubds), lib.List(bo), lib.List(bd), coqObjs(v.Sets), v.SlashedSet, coqObjs(v.Batches), v.SlashedBat,
-		coqObjs(v.Calls), v.SlashedCall, coqDeleg(v.Vals))
+		coqObjs(v.Calls), v.SlashedCall, coqDeleg(v.Vals), lib.Z(v.LastObs))
 }
 
 // deltas: Coq list of vdelta turning the previous observed view into this one
@@ -794,6 +815,9 @@ func (v *View) deltas(p *View) string {
 			ds = append(ds, fmt.Sprintf("DVal (%s, %s, %s)", v.Vals[i][0], v.Vals[i][1], v.Vals[i][2]))
 		}
 	}
+	if v.LastObs != p.LastObs {
+		ds = append(ds, "DLastObs "+lib.Z(v.LastObs))
+	}
 	objDelta(v.Calls, p.Calls, "DCall", "DCalls")
 	if v.SlashedCall != p.SlashedCall {
 		ds = append(ds, fmt.Sprintf("DSlashedCall %d", v.SlashedCall))
@@ -818,10 +842,15 @@ func (m *modw) quorumOnline() bool {
 	return sum.IsPositive() && sum.GTE(need)
 }
 
-func cloneClaim(c crosschaintypes.ExternalClaim) crosschaintypes.ExternalClaim {
+func cloneClaim(c crosschaintypes.ExternalClaim, nonce uint64) crosschaintypes.ExternalClaim {
 	switch x := c.(type) {
 	case *crosschaintypes.MsgSendToExternalClaim:
 		y := *x
+		y.EventNonce = nonce
+		return &y
+	case *crosschaintypes.MsgOracleSetUpdatedClaim:
+		y := *x
+		y.EventNonce = nonce
 		return &y
 	}
 	panic("unknown claim")
@@ -829,12 +858,11 @@ func cloneClaim(c crosschaintypes.ExternalClaim) crosschaintypes.ExternalClaim {
 
 // observe: the next external event (nonce lastObserved+1) is voted by every online oracle, each one first re-reporting
 // the earlier events it has not voted on yet (the same claims, from the log). True when the event became observed.
-func (m *modw) observe(claim *crosschaintypes.MsgSendToExternalClaim) bool {
+func (m *modw) observe(claim crosschaintypes.ExternalClaim) bool {
 	c := m.w.c
 	k := m.x.Keeper
 	target := k.GetLastObservedEventNonce(c.Ctx) + 1
-	claim.EventNonce = target
-	m.events[target] = claim
+	m.events[target] = cloneClaim(claim, target)
 	for _, o := range k.GetAllOracles(c.Ctx, true) {
 		id, ok := m.accID[o.BridgerAddress]
 		if !ok {
@@ -846,9 +874,7 @@ func (m *modw) observe(claim *crosschaintypes.MsgSendToExternalClaim) bool {
 			if !ok {
 				break
 			}
-			cl := cloneClaim(ev).(*crosschaintypes.MsgSendToExternalClaim)
-			cl.EventNonce = n
-			if err := m.x.Claim(voter, cl); err != nil {
+			if err := m.x.Claim(voter, cloneClaim(ev, n)); err != nil {
 				break
 			}
 		}
